@@ -288,6 +288,14 @@ pub fn scientific(sci: &(Base,Exponent)) -> Value {
   if *sign {
     exp_f64 = -exp_f64;
   }
+  // With an integer exponent the spelling is an ordinary decimal float literal:
+  // parse it as a whole so that the result is the nearest f64, which
+  // mantissa * 10^exponent computed in floating point is not (1.1e-1 != 0.11).
+  if d.chars().all(|ch| ch == '0') {
+    if let Ok(num) = format!("{}.{}e{}{}", a, b, if *sign { "-" } else { "" }, c).parse::<f64>() {
+      return Value::F64(Ref::new(num));
+    }
+  }
   let num = num_f64 * 10f64.powf(exp_f64);
   Value::F64(Ref::new(num))
 }
